@@ -197,7 +197,7 @@ func (c *client) roundTrip(raw []byte, wantFrames int) string {
 	} else {
 		c.tc.Write(encode([]string{"PING"}))
 	}
-	deadline := time.After(quiesceBound)
+	deadline := time.After(ts(quiesceBound))
 	got := 0
 	for {
 		select {
@@ -443,7 +443,7 @@ func main() {
 				id, _ := strconv.Atoi(f[1])
 				if c, ok := in.conns[id]; ok && c.kind == "t" {
 					c.tc.Close()
-					time.Sleep(60 * time.Millisecond)
+					time.Sleep(ts(60 * time.Millisecond))
 					c.kind = "closed"
 				}
 			case "T":
